@@ -47,7 +47,7 @@ class TempProject:
 
     def __init__(self, version_pattern, current_version, files=None, contents=None, fmt="bumpver.toml", commit=False, tag=False,
                  push=False, tag_scope=None, vcs=None, vcs_cfg=None, hooks=None, commit_message=None, tag_message=None,
-                 line_sep="\n", extra_cfg_lines=(), quote_cfg=True, cfg_prefix="", key_comment=False):
+                 line_sep="\n", extra_cfg_lines=(), quote_cfg=True, cfg_prefix="", key_comment=False, git_file=False):
         self.version_pattern = version_pattern
         self.current_version = current_version
         self.files = dict(files or {})
@@ -65,6 +65,7 @@ class TempProject:
         self.quote_cfg = quote_cfg
         self.cfg_prefix = cfg_prefix     # text placed before the bumpver section (other tools' sections)
         self.key_comment = key_comment   # a commented-out old current_version line above the live key
+        self.git_file = git_file         # fake git only: .git is a FILE ("gitdir: ..."), as in a linked worktree or a submodule
         self.dir = None
 
     # ------------------------------------------------------------------ construction
@@ -173,7 +174,11 @@ class TempProject:
                            "exit 0" if behaviour == "ok" else ("kill -KILL $$" if behaviour == "kill" else "exit 3")))
             os.chmod(p, 0o755)
         if self.vcs in ("fakegit", "fakehg"):
-            os.makedirs(self.path(".git" if self.vcs == "fakegit" else ".hg"), exist_ok=True)
+            if self.vcs == "fakegit" and self.git_file:
+                with open(self.path(".git"), "w") as f:
+                    f.write("gitdir: /somewhere/else/.git/worktrees/wt\n")
+            else:
+                os.makedirs(self.path(".git" if self.vcs == "fakegit" else ".hg"), exist_ok=True)
             os.makedirs(self.fakedir, exist_ok=True)
             self.set_vcs_cfg(**self.vcs_cfg)
         elif self.vcs == "git":
@@ -217,7 +222,7 @@ class TempProject:
         for root, dirs, files in os.walk(self.dir):
             dirs[:] = [x for x in dirs if x not in (".git", ".hg", ".fakevcs")]
             for fn in files:
-                if fn in (".hooks.log",):
+                if fn in (".hooks.log", ".git"):
                     continue
                 full = os.path.join(root, fn)
                 out[os.path.relpath(full, self.dir)] = open(full, "rb").read()
